@@ -5,6 +5,8 @@ ALL="C01,C02,C03,C04,C05,C06,C07,C08,C09,C10,C11,C12,C13,C14,C15,C16,C17"
 while read n dir p d m extra; do
   [ -z "$n" ] && continue
   cs="$ALL"; [ -n "$extra" ] && cs="$ALL,$extra"
+  # SEEDEVAL_OWN=1: only the check of the property the defect was written against (name prefix)
+  [ -n "$SEEDEVAL_OWN" ] && cs=$(echo "$n" | cut -c1-3)
   ./seedeval.py "$n" "$dir/$p" "$dir/$d" "$dir/$m" --checks "$cs" > /tmp/seedeval_$n.log 2>&1
   echo "$n: $(grep -E '^confirm' /tmp/seedeval_$n.log | cut -c1-400)"
   echo "$n: $(grep 'detected by' /tmp/seedeval_$n.log)"
